@@ -117,6 +117,69 @@ func c10Monitor(args []string) int {
 	}
 	rep.Stats["games"] = games
 	rep.Distinct = rep.Cases
+	// trade-down games: from positions with far more than the usual material (several queens) captures are played
+	// whenever possible until almost nothing is left; at every position the answer must be the answer for the same
+	// board set up from its FEN, and false while a pawn, rook or queen is on the board
+	for tg, tries := 0, 0; tg < 6+n/2000 && tries < 4000; tries++ {
+		var board [64]byte
+		for i := range board {
+			board[i] = ' '
+		}
+		wkSq, bkSq := rng.Intn(64), rng.Intn(64)
+		if wkSq == bkSq || SquareDistance(Square(wkSq), Square(bkSq)) < 2 {
+			continue
+		}
+		board[wkSq], board[bkSq] = 'K', 'k'
+		kinds := "QQQRRBNqqqrrbn"
+		for i, k := 0, 7+rng.Intn(6); i < k; i++ {
+			if sq := rng.Intn(64); board[sq] == ' ' {
+				board[sq] = kinds[rng.Intn(len(kinds))]
+			}
+		}
+		root := compressFenBoard(board) + " " + []string{"w", "b"}[rng.Intn(2)] + " - - 0 1"
+		p, err := position.NewPositionFen(root)
+		if err != nil || p == nil || p.IsAttacked(p.KingSquare(p.NextPlayer().Flip()), p.NextPlayer()) || p.HasCheck() {
+			continue
+		}
+		{
+			cp := *p
+			if len(w.legalMoves(&cp)) == 0 {
+				continue
+			}
+		}
+		tg++
+		rep.Stats["trade_down_games"]++
+		var hist []Move
+		for ply := 0; ply < 160; ply++ {
+			heavy := p.PiecesBb(White, Pawn)|p.PiecesBb(Black, Pawn)|p.PiecesBb(White, Rook)|p.PiecesBb(Black, Rook)|p.PiecesBb(White, Queen)|p.PiecesBb(Black, Queen) != 0
+			got := p.HasInsufficientMaterial()
+			fr, _ := position.NewPositionFen(p.StringFen())
+			rep.Cases++
+			rep.Stats["trade_down_positions"]++
+			if (heavy && got) || (fr != nil && fr.HasInsufficientMaterial() != got) {
+				rep.Violate("insufficient-material", map[string]interface{}{"root": root, "moves": movesUci(hist), "fen": p.StringFen()},
+					fmt.Sprintf("HasInsufficientMaterial=%v on the position reached by play (pawn, rook or queen on the board: %v; the same board set up from its FEN: %v)", got, heavy, fr != nil && fr.HasInsufficientMaterial()))
+				break
+			}
+			cp := *p // legality probing plays and takes back moves: not on the position under test
+			lm := w.legalMoves(&cp)
+			if len(lm) == 0 || p.OccupiedAll().PopCount() <= 2 {
+				break
+			}
+			var caps []Move
+			for _, m := range lm {
+				if p.GetPiece(m.To()) != PieceNone {
+					caps = append(caps, m)
+				}
+			}
+			m := lm[rng.Intn(len(lm))]
+			if len(caps) > 0 {
+				m = caps[rng.Intn(len(caps))]
+			}
+			p.DoMove(m)
+			hist = append(hist, m)
+		}
+	}
 	// material signatures: pieces of each side from {N,B(light),B(dark),R,Q,P}, up to 3 per side
 	kinds := []string{"N", "L", "D", "R", "Q", "P"}
 	var sigs [][]string
